@@ -280,6 +280,14 @@ impl<L: Language, N: Analysis<L>> EGraph<L, N> {
                 #[allow(unused)]
                 let (a, b, proof) = self.pc_congruence(&pc1, &pc2);
 
+                // The variant can move a slot of the class onto a slot that is redundant in this e-node.
+                // Then that slot is redundant in the class as well: a union shrinks the class accordingly.
+                if a.slots() != b.slots() {
+                    self.union_internal(&a, &b, proof);
+                    self.determine_self_symmetries(src_id);
+                    return;
+                }
+
                 // or is it the opposite direction? (flip a with b)
                 let perm = b.m.compose(&a.m.inverse());
 
